@@ -143,6 +143,17 @@ func vfC14Summary(body []byte) string {
 	return fmt.Sprintf("streams=%d[%s]", len(streams), strings.Join(parts, ","))
 }
 
+// vfC14UserTurns counts Produce/Exchange/OnCancel invocations (not rehydrate).
+func vfC14UserTurns() int {
+	n := 0
+	for _, e := range vfEvents {
+		if e.What != "rehydrate" {
+			n++
+		}
+	}
+	return n
+}
+
 func TestVerif_C14(t *testing.T) {
 	venum.Begin("C14")
 	defer venum.Finish(t)
@@ -156,6 +167,12 @@ func TestVerif_C14(t *testing.T) {
 		cancel := x.Bool("cancel")
 		withCall := !x.Bool("omit-call-token")
 		cacheOff := x.Bool("call-cache-off")
+		// The application's RehydrateFunc is per-method code that runs on the
+		// decoded state: "none" = not configured; "record" = only records;
+		// "typed" = the usual shape, switch on the method name and assert the
+		// state type that method mints (panics on a foreign type); "error" =
+		// the same check reported as an error.
+		rehydrate := x.Pick("rehydrate-callback", "none", "record", "typed", "error")
 
 		vfResetEvents()
 		s := vfC14Server()
@@ -166,6 +183,33 @@ func TestVerif_C14(t *testing.T) {
 		h.SetProducerBatchLimit(1)
 		if cacheOff {
 			h.SetCallStateCacheEntries(0)
+		}
+		if rehydrate != "none" {
+			h.SetRehydrateFunc(func(state interface{}, method string) error {
+				owner := "?"
+				fits := false
+				wantProd := method == "P1" || method == "P2" || method == "DP"
+				switch st := state.(type) {
+				case *VfC14Prod:
+					owner, fits = st.Owner, wantProd
+				case *VfC14Exch:
+					owner, fits = st.Owner, !wantProd
+				}
+				vfEvents = append(vfEvents, VfEvent{What: "rehydrate", Method: method, Input: owner})
+				switch rehydrate {
+				case "typed":
+					if wantProd {
+						_ = state.(*VfC14Prod)
+					} else {
+						_ = state.(*VfC14Exch)
+					}
+				case "error":
+					if !fits {
+						return fmt.Errorf("state %T does not belong to method %s", state, method)
+					}
+				}
+				return nil
+			})
 		}
 
 		// Mint with src: init, then `turns` own continuations.
@@ -219,14 +263,14 @@ func TestVerif_C14(t *testing.T) {
 		// Observed behaviour only (no choice values): status, panic text, which
 		// user code ran under which name, decoded response.
 		x.Outcome("status=%d panic=%v events=%v resp=%s", rec.Code, pan, events, summary)
-		x.Note("mint %s (%d own turns), present to /%s/exchange input=%s cancel=%v call-token=%v cache-off=%v", src.name, turns, dst.name, vfC14Inputs[inIdx], cancel, withCall, cacheOff)
+		x.Note("mint %s (%d own turns), present to /%s/exchange input=%s cancel=%v call-token=%v cache-off=%v rehydrate=%s", src.name, turns, dst.name, vfC14Inputs[inIdx], cancel, withCall, cacheOff, rehydrate)
 		x.Note("status=%d panic=%v events=%v resp=%s", rec.Code, pan, events, summary)
 
 		if src.name == dst.name {
 			// Control: the minting method's own route. Nothing is demanded by the
 			// property; a well-formed continuation must work or the cross-method
 			// refusals below would be vacuous.
-			if pan == nil && !cancel && inIdx == src.ownInput && (withCall || !cacheOff) && (rec.Code != 200 || len(events) != 1) {
+			if pan == nil && !cancel && inIdx == src.ownInput && (withCall || !cacheOff) && (rec.Code != 200 || vfC14UserTurns() != 1) {
 				venum.EngineError("C14 harness: own well-formed continuation of %s refused: status=%d events=%v resp=%s", src.name, rec.Code, events, summary)
 			}
 			return
